@@ -36,6 +36,10 @@ def scenarios(ctx, rend):
         ("long-line-fail", "x = \"" + "a" * 70000 + "\"\nprintln(len(x))\nzz"), ("long-line-ok", "x = \"" + "b" * 140000 + "\"\nprintln(len(x))"),
         ("crlf-raw-string", "a = `x\r\ny`\nprintln(len(a))\nif len(a) != 4 { throw \"raw string changed\" }"), ("crlf-lines", "println(1)\r\nprintln(2)\r\nzz\r\n"),
         ("cr-only", "println(1)\rprintln(2)"), ("no-final-newline", "println(7)"), ("tabs-ff", "println(1)\t\n\x0cprintln(2)"), ("utf8", "println(\"héllo wörld ✓\")\nthrow \"ü\""),
+        # output of the builtins and of the bundled fmt package interleaves in program order, also when the script fails afterwards
+        ("mixed-print", "fmt = import(\"fmt\")\nprintln(\"one\")\nfmt.Println(\"two\")\nprintln(\"three\")\nfmt.Printf(\"%d\\n\", 4)\nprint(\"five\\n\")"),
+        ("mixed-print-fail", "fmt = import(\"fmt\")\nprintln(\"one\")\nfmt.Println(\"two\")\nprintln(\"three\")\nzz"),
+        ("os-stdout-write", "os = import(\"os\")\nprintln(\"a\")\nos.Stdout.WriteString(\"b\\n\")\nprintln(\"c\")"),
         ("div-zero", "println(1 % 0)"), ("deep-error", "func f() { return g() }\nfunc g() { throw \"deep\" }\nprintln(0)\nf()"),
     ]
     scripts += [("sp-" + n, s) for n, s in special]
@@ -49,6 +53,10 @@ def scenarios(ctx, rend):
         out.append({"id": "%s-noargs" % sid, "mode": "file", "src": src, "args": [], "readable": True})
         if len(src) <= 100000:
             out.append({"id": "%s-e-noargs" % sid, "mode": "e", "src": src, "args": [], "readable": True})
+    # the file named by a relative path (with a directory part; with ./), the command started elsewhere than next to it
+    for sid, src in scripts[-len(special):][:12] + [("sp-load-rel", "println(1)")]:
+        for rel in ("sub", "dot"):
+            out.append({"id": "%s-rel-%s" % (sid, rel), "mode": "file", "src": src, "args": ["x1"], "readable": True, "rel": rel})
     for k in range(3):
         for how in ("missing", "dir", "perm"):
             out.append({"id": "unreadable-%s-%d" % (how, k), "mode": "file", "src": "println(1)", "args": ["a"] * k, "readable": False, "unread": how})
